@@ -18,6 +18,7 @@ import (
 	"net/http"
 	"os"
 	"runtime"
+	"slices"
 	"sort"
 	"strings"
 	"sync"
@@ -89,16 +90,17 @@ type BackendPlan struct {
 }
 
 type RespPlan struct {
-	Status  int
-	Header  [][2]string
-	Body    []byte
-	Chunks  []int // body is written in these piece sizes with Flush in between (nil: one write)
-	DelayMS int   // the handler sleeps (simulated time) before answering
-	Hold    bool  // the handler parks at a yield point until the controller releases it
-	NoRead  bool  // the handler answers without reading the request body
-	Park    bool  // the handler parks until the drain phase (not offered to the controller during Run)
-	Trailer [][2]string
-	NoCL    bool
+	Status      int
+	Header      [][2]string
+	Body        []byte
+	Chunks      []int // body is written in these piece sizes with Flush in between (nil: one write)
+	DelayMS     int   // the handler sleeps (simulated time) before answering
+	Hold        bool  // the handler parks at a yield point until the controller releases it
+	NoRead      bool  // the handler answers without reading the request body
+	Park        bool  // the handler parks until the drain phase (not offered to the controller during Run)
+	Trailer     [][2]string
+	LateTrailer [][2]string // trailers the handler did not announce in the Trailer header (sent with http.TrailerPrefix)
+	NoCL        bool
 }
 
 type BackendReq struct {
@@ -163,6 +165,7 @@ type World struct {
 	Sched         SchedStats
 	Parked        []*yieldPoint
 	draining      bool
+	handoverSeq   int
 	captureSeq    int
 	callbackCount map[string]int
 	Stuck         bool
@@ -327,6 +330,17 @@ func NewWorld(t testingT, plan *Plan) *World {
 			if plan.Fences {
 				w.Yield(site + ":" + remote)
 			}
+		}
+	}
+
+	proxyserver.VerifYield = nil
+	if plan.Fences {
+		proxyserver.VerifYield = func(site, remote string) {
+			w.mu.Lock()
+			w.handoverSeq++
+			k := w.handoverSeq
+			w.mu.Unlock()
+			w.Yield(fmt.Sprintf("%s#%d:%s", site, k, remote))
 		}
 	}
 
@@ -609,11 +623,14 @@ func (w *World) backendHandler(rw http.ResponseWriter, r *http.Request) {
 	if len(rp.Trailer) > 0 {
 		names := []string{}
 		for _, kv := range rp.Trailer {
-			names = append(names, kv[0])
+			// one announcement per name (net/http emits a trailer once per announcement)
+			if !slices.Contains(names, kv[0]) {
+				names = append(names, kv[0])
+			}
 		}
 		h.Set("Trailer", strings.Join(names, ","))
 	}
-	if !rp.NoCL && len(rp.Trailer) == 0 {
+	if !rp.NoCL && len(rp.Trailer) == 0 && len(rp.LateTrailer) == 0 {
 		h.Set("Content-Length", fmt.Sprint(len(rp.Body)))
 	}
 	st := rp.Status
@@ -640,6 +657,16 @@ func (w *World) backendHandler(rw http.ResponseWriter, r *http.Request) {
 	}
 	for _, kv := range rp.Trailer {
 		h.Add(kv[0], kv[1])
+	}
+	if len(rp.LateTrailer) > 0 {
+		// unannounced trailers need a chunked response: flush before the handler returns,
+		// or net/http computes a Content-Length and drops them
+		if fl, ok := rw.(http.Flusher); ok {
+			fl.Flush()
+		}
+	}
+	for _, kv := range rp.LateTrailer {
+		h.Add(http.TrailerPrefix+kv[0], kv[1])
 	}
 }
 
